@@ -117,6 +117,29 @@ theorem condbr_same_successor_counterexample :
     (conv sameSuccFunc).map (fun q => semI q 5 [.int 1 0, .int 32 10, .int 32 20]) = some (.ok (.int 32 20)) := by
   decide
 
+/-! ## float formats (the float rows of `convert_type`) -/
+
+/-- "the compiled code returns the value the LLVM semantics of the source operations prescribe" needs every
+float value to keep its format: the LLVM type names of two different builtin float formats differ, so the
+type named in the emitted text determines the format (what the harness' text oracle relies on). -/
+theorem FloatFmt.llvmName_injective (a b : FloatFmt) (h : a.llvmName = b.llvmName) : a = b := by
+  cases a <;> cases b <;> first | rfl | (revert h; decide)
+
+/-- whenever `convert_type` translates a float type, the emitted LLVM type is the one of the same format -/
+theorem convFloatTy_format (a : FloatFmt) (n : String) (h : convFloatTy a = some n) : n = a.llvmName := by
+  cases a <;> simp [convFloatTy] at h <;> simp [h, FloatFmt.llvmName]
+
+/-- hence no two float formats are translated to one LLVM type (translated = format preserved, or rejected) -/
+theorem convFloatTy_injective (a b : FloatFmt) (n : String) (ha : convFloatTy a = some n)
+    (hb : convFloatTy b = some n) : a = b :=
+  FloatFmt.llvmName_injective a b ((convFloatTy_format a n ha).symm.trans (convFloatTy_format b n hb))
+
+/-- the storage width does not determine the format (`f16` and `bf16` are both 16 bits wide with different
+precision): a table keyed by width cannot satisfy `convFloatTy_format`. -/
+theorem floatFmt_width_not_injective_counterexample :
+    FloatFmt.f16.bits = FloatFmt.bf16.bits ∧ FloatFmt.f16.precision ≠ FloatFmt.bf16.precision ∧
+    FloatFmt.f16.llvmName ≠ FloatFmt.bf16.llvmName := by decide
+
 /-! ## non-vacuity -/
 
 /-- `f(c : i1, a : i8, b : i8)`: `cond_br c, ^1(a), ^1(b)`; `^1(x)`: `x + (-1) nsw`, compare `ult a`,
@@ -147,5 +170,6 @@ example : semD exampleFunc 10 [.int 1 0, .int 8 9, .int 8 128] = .ub := by decid
 example : convBinFlags .AddOp 3 false false = some [.nsw, .nuw] := rfl
 example : convICmpPred 6 = some .ult := rfl
 example : convFCmpPred 9 = some .ugt := by decide
+example : convFloatTy .f16 = some "half" ∧ convFloatTy .bf16 = none := by decide
 
 end Xdsl.LLVM
